@@ -10,6 +10,7 @@ import (
 	"verifharness/drv/frl"
 	"verifharness/drv/fwd"
 	"verifharness/drv/hb"
+	"verifharness/drv/pk"
 	"verifharness/drv/re"
 	"verifharness/drv/sy"
 	"verifharness/drv/ts"
@@ -39,6 +40,8 @@ func main() {
 		os.Exit(fr.Main(os.Args[2:]))
 	case "frl":
 		os.Exit(frl.Main(os.Args[2:]))
+	case "pk":
+		os.Exit(pk.Main(os.Args[2:]))
 	case "hb":
 		os.Exit(hb.Main(os.Args[2:]))
 	default:
